@@ -54,6 +54,51 @@ def r_erase_before(F, V):
                             "Bucket::%s moves/destroys an element that is still registered in the table (no erase dominates it): a panic in the destructor or in a later callback, or any later use, sees a dropped/moved-out element as present (double drop)" % what,
                             line=line_of(body, bb=i))
                 R.inst(key, "element consumed before being unregistered", "violation", True, where(body, bb=i))
+    # the same move-out done by hand: ptr::read / drop_in_place on the data pointer of a bucket (through one of its
+    # accessors) outside Bucket's own methods
+    RAW_MOVE = ("core::ptr::read", "core::ptr::drop_in_place", "core::ptr::read_unaligned", "core::ptr::read_volatile",
+                "core::ptr::const_ptr::*const T::read", "core::ptr::mut_ptr::*mut T::read", "core::ptr::mut_ptr::*mut T::drop_in_place",
+                "core::ptr::non_null::NonNull::read", "core::ptr::non_null::NonNull::drop_in_place")
+    ACCESSORS = (".as_mut", ".as_ptr", ".as_ref", ".as_non_null")
+    nraw = 0
+    for p, body in F.bodies.items():
+        if p.startswith("raw::Bucket::"):
+            continue
+        for i, t in body.calls():
+            cp = callee_path(t) or ""
+            if cp not in RAW_MOVE or not t["args"] or t["args"][0]["k"] not in ("copy", "move"):
+                continue
+            nraw += 1
+            r, path = deep_root(body, t["args"][0]["p"])
+            if not any(x in ACCESSORS for x in path):
+                continue
+            # is the accessor one of raw::Bucket? (root or a field typed Bucket)
+            via_bucket = False
+            for j, t2 in body.calls():
+                c2 = callee_path(t2) or ""
+                if c2.startswith("raw::Bucket::as_") and t2.get("dest") is not None:
+                    via_bucket = True
+            if not via_bucket:
+                continue
+            outer = p
+            while outer not in BULK_CONSUMERS and "::{closure#" in outer:
+                outer = outer.rsplit("::{closure#", 1)[0]
+            key = "%s|raw-%s" % (p, cp.split("::")[-1])
+            if outer in BULK_CONSUMERS:
+                continue
+            ok = False
+            for j, t2 in body.calls():
+                if callee_path(t2) in UNREGISTER + ("raw::RawTable::remove",) and t2.get("target") is not None:
+                    if body.dominates(t2["target"], i) or t2["target"] == i:
+                        ok = True
+            if ok:
+                R.inst(key, "hand-written move-out is dominated by the call that unregisters the slot", "ok", True, where(body, bb=i))
+            else:
+                R.violation(key, body, "%s moves/destroys (part of) an element through a bucket's data pointer while the slot is still registered in the table (no erase/remove dominates it): "
+                            "if the following callback panics, or on any later use, the table still holds a bitwise copy of a value that was already consumed (double drop / use after free)" % cp,
+                            line=line_of(body, bb=i))
+                R.inst(key, "element consumed before being unregistered", "violation", True, where(body, bb=i))
+    R.info["raw ptr::read / drop_in_place sites examined"] = nraw
     R.floor("callers of Bucket::read / Bucket::drop", n, {"default": 5, "nodefault": 5, "serde": 5, "rustc-internal-api": 5, "posctl": 1}.get(F.cfg, 7))
     return R
 
@@ -616,6 +661,33 @@ def r_layout_source(F, V):
                 R.violation(key, body, "the Layout passed to %s does not derive from TableLayout::calculate_layout_for(buckets) / into_allocation (sources: %s): a block may be returned with a different layout than it was requested with" % ("do_alloc" if li == 1 else "deallocate", sorted(src)),
                             line=line_of(body, bb=i))
                 R.inst(key, "layout of unknown origin", "violation", True, where(body, bb=i))
+    # (vi) the allocation shims pass the caller's Layout to the allocator untouched: the same Layout value is later
+    # reported in AllocError and used for deallocate, so any adjustment here (padding, rounding) makes them disagree
+    for p, body in F.bodies.items():
+        if not p.startswith("raw::alloc::"):
+            continue
+        for i, t in body.calls():
+            if not (_is_alloc_trait_call(t, "allocate") or _is_alloc_trait_call(t, "allocate_zeroed") or (callee_path(t) or "").endswith("alloc::alloc::alloc")):
+                continue
+            lay = [a for a in t["args"] if a["k"] in ("copy", "move") and "Layout" in body.local_ty(a["p"]["l"])["s"]]
+            key = "%s|layout-untouched" % p
+            nu += 1
+            bad = None
+            for a in lay:
+                og = body.origins(a)
+                if any(o[0] == "call" for o in og):
+                    bad = sorted(set((callee_path(o[2]) or "?") for o in og if o[0] == "call"))
+                elif not any(o[0] == "arg" for o in og):
+                    bad = ["not the function's own Layout argument"]
+            if not lay:
+                # the global-alloc shim takes size/align apart: accept only Layout::size / Layout::align of the argument
+                R.inst(key, "allocator call without a Layout operand (size/align taken from the argument)", "ok", False, where(body, bb=i))
+            elif bad:
+                R.violation(key, body, "the Layout handed to the allocator in %s is not the caller's Layout as is (it goes through %s): the block is requested with one layout but reported in AllocError and "
+                            "returned to deallocate with another" % (p, bad), line=line_of(body, bb=i))
+                R.inst(key, "layout adjusted inside the allocation shim", "violation", True, where(body, bb=i))
+            else:
+                R.inst(key, "allocate(layout) receives the shim's own Layout argument", "ok", True, where(body, bb=i))
     R.floor("Layout consumers", nu, {"posctl": 0}.get(F.cfg, 3))
     # (iii) every TableLayout argument is the caller's own parameter or the associated const TABLE_LAYOUT
     nt = 0
